@@ -662,6 +662,31 @@ class _ParseFunction(_nt('_ParseFunction', 'func, args, kwargs')):
     def __call__(self, ${ctx}_text, _pos):
         return self.func(${ctx}_text, _pos, *self.args, **dict(self.kwargs))
 
+    # As keys of the memo table, two calls are the same call only when their
+    # arguments are the same values: 1 is not True, and two parsed objects that
+    # happen to look alike are still two objects.
+    def _key(self):
+        return (
+            self.func,
+            tuple(_argument_key(x) for x in self.args),
+            tuple((k, _argument_key(v)) for k, v in self.kwargs),
+        )
+
+    def __eq__(self, other):
+        return isinstance(other, _ParseFunction) and self._key() == other._key()
+
+    def __ne__(self, other):
+        return not self == other
+
+    def __hash__(self):
+        return hash(self._key())
+
+
+def _argument_key(value):
+    if isinstance(value, ParsedObject):
+        return (ParsedObject, id(value))
+    return (type(value), value)
+
 
 class _StringLiteral(str):
     def __call__(self, ${ctx}_text, _pos):
